@@ -12,15 +12,15 @@ def run(ctx):
     for s in specs:
         for c in cfgs:
             # the index of the failing allocation request is a solver variable
-            js, g = E.api_jobs(ctx, s, c, [2] if quick else [1, 2, 3], ops=(0, 1, 2, 3, 4), alloc_fail=True, checks='safety',
-                               timeout=(240 if quick else 1200), witness_len=None, tagx='af')
+            js, g = E.api_jobs(ctx, s, c, [2] if quick else [1, 2, 3], ops=((0, 1) if quick else (0, 1, 2, 3, 4)), alloc_fail=True, checks='safety',
+                               timeout=(240 if quick else 1200), witness_len=2, tagx='af', fail_ats=tuple(range(0, 7)))
             if not common.gen_ok(ctx, g, s, c, 'E4b'):
                 continue
             jobs += js
     # reentrant: yylex_init must return non-zero with errno ENOMEM
     for s in specs[:1]:
         js, g = E.api_jobs(ctx, s, C('r', api='r'), [1] if quick else [1, 2], ops=(1,), alloc_fail=True, checks='functional',
-                           timeout=(280 if quick else 1800), mem_mb=(12000 if quick else 24000), tagx='afr')
+                           timeout=(280 if quick else 1800), mem_mb=(12000 if quick else 24000), tagx='afr', fail_ats=tuple(range(0, 8)))
         jobs += js
     ctx.run_cbmc(jobs)
     try:
@@ -29,5 +29,5 @@ def run(ctx):
     except ImportError:
         ctx.notes.append('read-error / EINTR obligations for the generated yyread(): not built in this revision')
     common.std_assumptions(ctx)
-    ctx.assume('exactly one allocation request fails (index 0..7 symbolic); the fatal-error hook (YY_FATAL_ERROR override) ends the run; cbmc pointer checks are on, so use of the failed block would be reported')
+    ctx.assume('exactly one allocation request fails (one query per request index 0..7, inputs symbolic); the fatal-error hook (YY_FATAL_ERROR override) ends the run; cbmc pointer checks are on, so use of the failed block would be reported')
     ctx.out_of_bound.append('failures of more than one request; yytables_fload (C15)')
